@@ -8,7 +8,7 @@ use crate::driver::{AnyFlow, ReqCfg};
 use crate::engine::{guarded, Report, Tier, Violation};
 use crate::refmodel::reqvalid::{self, ReqFacts};
 
-pub const RULE: &str = "full product: version {0.9,1.0,1.1,2,3} x 9 methods x Host {none, one, two orig, orig+added, non-textual} x Content-Length {none, 3, 0, two orig, orig+added, -1, abc, non-utf8} x Transfer-Encoding {none, chunked} x despite-method {no,yes} x front end {Flow, Call::without_body, Call::with_body}; per cell: write(4 KiB sentinel buffer) twice, write(empty buffer), readiness, proceed. distinct = distinct (validity class, front end, outcome) triples";
+pub const RULE: &str = "full product: version {0.9,1.0,1.1,2,3} x 9 methods x Host {none, one, two orig, orig+added, non-textual} x Content-Length {none, 3, 0, two orig, orig+added, -1, abc, non-utf8} x Transfer-Encoding {none, chunked, Chunked, CHUNKED} x despite-method {no,yes} x front end {Flow, Call::without_body, Call::with_body}; per cell: write(4 KiB sentinel buffer) twice, write(empty buffer), readiness, proceed. distinct = distinct (validity class, front end, outcome) triples";
 
 const METHODS: [&str; 9] = ["GET", "HEAD", "POST", "PUT", "DELETE", "CONNECT", "OPTIONS", "TRACE", "PATCH"];
 const VERSIONS: [&str; 5] = ["0.9", "1.0", "1.1", "2", "3"];
@@ -22,7 +22,7 @@ struct Cell {
     method: &'static str,
     host: &'static str,
     cl: &'static str,
-    te: bool,
+    te: &'static str,
     despite: bool,
     front: &'static str,
 }
@@ -33,7 +33,7 @@ fn cells() -> Vec<Cell> {
         for method in METHODS {
             for host in HOSTS {
                 for cl in CLS {
-                    for te in [false, true] {
+                    for te in ["", "chunked", "Chunked", "CHUNKED"] {
                         for despite in [false, true] {
                             for front in FRONTS {
                                 if front != "flow" && despite {
@@ -77,8 +77,8 @@ fn cfg_of(c: &Cell) -> ReqCfg {
         "non-utf8" => r = r.orig_b("content-length", &[b'3', 0xe9]),
         _ => {}
     }
-    if c.te {
-        r = r.orig("transfer-encoding", "chunked");
+    if !c.te.is_empty() {
+        r = r.orig("transfer-encoding", c.te);
     }
     r.despite(c.despite)
 }
